@@ -48,12 +48,13 @@ func (c *typeDefFirstChecker) WalkFile(f *ast.File) {
 func (c *typeDefFirstChecker) walkDecl(decl ast.Decl) {
 	switch decl := decl.(type) {
 	case *ast.FuncDecl:
-		if decl.Recv == nil {
-			return
+		if decl.Recv == nil || len(decl.Recv.List) == 0 {
+			return // No receiver (an empty receiver list is a syntax error)
 		}
 		receiver := decl.Recv.List[0]
-		typeName := c.receiverType(receiver.Type)
-		c.trackedTypes[typeName] = true
+		if typeName := c.receiverType(receiver.Type); typeName != "" {
+			c.trackedTypes[typeName] = true
+		}
 
 	case *ast.GenDecl:
 		if decl.Tok != token.TYPE {
@@ -85,7 +86,9 @@ func (c *typeDefFirstChecker) receiverType(e ast.Expr) string {
 	case *ast.IndexListExpr:
 		return c.receiverType(e.X)
 	default:
-		panic("unreachable")
+		// Not a (pointer to a) type name: code that doesn't
+		// type-check, like `func (xs []int) M()`.
+		return ""
 	}
 }
 
